@@ -67,6 +67,12 @@ template <class MM, class O> struct H {
           else if (k == 1) { fresh(); *n = *m; }
           else if (k == 2) n.reset(new MM(std::move(*m)));
           else if (k == 3) { fresh(); *n = std::move(*m); }
+          else if (k == 5) {   // rebuilt through the constructor that takes all the columns at once
+            typedef typename std::conditional<O::is_z2, unsigned, std::pair<unsigned, unsigned> >::type Ent;
+            std::vector<std::vector<Ent>> cols;
+            for (long j = 0; j < ncols; ++j) { auto v = m->get_column((unsigned)j).get_content(64); std::vector<Ent> c;
+              for (long q = 0; q < (long)v.size(); ++q) { long e = O::is_z2 ? (v[q] ? 1 : 0) : md((long)v[q], p); if (e) pushE(c, (unsigned)q, (unsigned)e); } cols.push_back(c); }
+            if constexpr (O::is_z2) n.reset(new MM(cols)); else n.reset(new MM(cols, (unsigned)p)); }
           else { fresh(); using std::swap; swap(*n, *m); }
           if (k <= 1) { std::vector<typename std::conditional<O::is_z2, unsigned, std::pair<unsigned, unsigned> >::type> v; pushE(v, 0, 1); m->insert_column(v); }
           m = std::move(n); return "dup"; }
